@@ -194,6 +194,16 @@ fn order(m: &Model, ctx: &mut Ctx) {
             ctx.fail_closed("C09.order", &format!("Validator::link: step `{}` not found as a statement of the key loop", n));
         }
     }
+    // COMPONENTS OF copies the referenced type's components as they stand; notations inside the copies (selection
+    // types, object-set references) are expanded only by the steps that follow it on the same key
+    for later in ["link_choice_selection_type", "link_object_set_reference"] {
+        let (Some((pc, lc)), Some((pl, _))) = (pos.get("link_components_of_notation"), pos.get(later)) else { continue };
+        ctx.oblige("C09.order", &format!("link_components_of_notation<{}", later), true);
+        if pc >= pl {
+            ctx.violate("C09.order", &format!("link_components_of_notation-after-{}", later), &f.file, *lc,
+                &format!("Validator::link runs `link_components_of_notation` after `{}`: components copied from a type that has not been linked yet keep their unexpanded notation (a selection type then reaches the generator, which does not expect it), depending only on how the two names sort", later));
+        }
+    }
     for imp in importers {
         for res in resolvers {
             let (Some((pi, li)), Some((pr, _))) = (pos.get(imp), pos.get(res)) else { continue };
@@ -253,6 +263,76 @@ pub fn constraint_pairs(m: &Model, ctx: &mut Ctx, rule: &str) {
     ctx.floor(&format!("{}/constraint-kind-pairs", rule), pairs, 14);
 }
 
+/// C09.params: instantiating `Param { args }` links a clone of the template in a scope in which each dummy reference
+/// denotes its actual parameter — also when the module happens to define something of the same name (X.683 8.3: the
+/// scope of a dummy reference is the parameterized assignment itself). In resolve_parameters the scope map must be
+/// filled from the module's definitions *before* the actual parameters are inserted under the dummy names (a later
+/// insert wins), and it is that map the template is linked against.
+fn params(m: &Model, ctx: &mut Ctx) {
+    let Some(f) = m.fns.iter().find(|f| f.name == "resolve_parameters" && f.self_ty.as_deref() == Some("ASN1Type")) else {
+        ctx.fail_closed("C09.params", "anchor not found: ASN1Type::resolve_parameters");
+        return;
+    };
+    ctx.func(&f.key);
+    let module_map = f.sig.inputs.iter().filter_map(|a| match a { syn::FnArg::Typed(t) if tok(&t.ty).contains("BTreeMap<String,ToplevelDefinition>") => Some(tok(&t.pat)), _ => None }).next().unwrap_or("tlds".into());
+    // the scope map: receiver of `.insert(dummy_reference.clone(), ..)`
+    let inserts: Vec<(String, usize)> = model::method_calls_in(&f.block).iter().filter(|mc| mc.method == "insert" && mc.args.first().map(|a| tok(a).starts_with("dummy_reference")).unwrap_or(false) && mc.args.iter().nth(1).map(|a| tok(a).starts_with("ToplevelDefinition::")).unwrap_or(false)).map(|mc| (tok(&mc.receiver), model::line_of(syn::spanned::Spanned::span(mc)))).collect();
+    ctx.floor("C09.params/parameter-inserts", inserts.len(), 3);
+    let Some(scope) = inserts.first().map(|x| x.0.clone()) else { return };
+    ctx.oblige("C09.params", "one-scope-map", true);
+    if inserts.iter().any(|(r, _)| *r != scope) {
+        ctx.violate("C09.params", "one-scope-map", &f.file, f.line, &format!("the actual parameters are inserted into different maps: {:?}", inserts));
+    }
+    let first_insert = inserts.iter().map(|x| x.1).min().unwrap_or(0);
+    // statements that put the module's definitions into the scope map
+    struct L {
+        scope: String,
+        module_map: String,
+        fills: Vec<(usize, String)>,
+    }
+    impl model::DeepCb for L {
+        fn local(&mut self, l: &syn::Local) {
+            if let Some(init) = &l.init {
+                let p = tok(&l.pat).replace("mut ", "");
+                if p == self.scope && tok(&init.expr).contains(&self.module_map) {
+                    self.fills.push((model::line_of(syn::spanned::Spanned::span(l)), tok(&init.expr)));
+                }
+            }
+        }
+        fn expr(&mut self, e: &syn::Expr) {
+            if let syn::Expr::MethodCall(mc) = e {
+                if tok(&mc.receiver) == self.scope && ["extend", "append", "insert", "entry", "extend_from_slice"].contains(&mc.method.to_string().as_str()) && mc.args.iter().any(|a| tok(a).contains(&self.module_map)) && !tok(mc).contains("dummy_reference") {
+                    self.fills.push((model::line_of(syn::spanned::Spanned::span(mc)), tok(mc).chars().take(80).collect()));
+                }
+            }
+        }
+    }
+    let mut l = L { scope: scope.clone(), module_map: module_map.clone(), fills: vec![] };
+    model::deep_walk_block(&f.block, &mut l);
+    ctx.oblige("C09.params", "module-definitions-visible", true);
+    if l.fills.is_empty() {
+        ctx.violate("C09.params", "module-definitions-visible", &f.file, f.line, &format!("the scope map `{}` is never filled from `{}`: the template cannot refer to the module's other definitions", scope, module_map));
+    }
+    ctx.oblige("C09.params", "parameters-shadow-module-definitions", true);
+    for (line, what) in &l.fills {
+        if *line > first_insert {
+            ctx.violate("C09.params", "parameters-shadow-module-definitions", &f.file, *line,
+                &format!("`{}` adds the module's definitions to the scope map after the actual parameters were inserted under the dummy names: a module-level definition spelled like a dummy reference overrides the actual parameter (`Element ::= OCTET STRING  Box{{Element}} ::= SEQUENCE {{ item Element }}  X ::= Box{{BOOLEAN}}` gives item: OctetString)", what));
+        }
+    }
+    // the template is linked against the scope map
+    ctx.oblige("C09.params", "template-linked-in-scope", true);
+    for mc in model::method_calls_in(&f.block) {
+        let n = mc.method.to_string();
+        if (n == "link_elsewhere_declared" || n == "link_constraint_reference") && tok(&mc.receiver).contains("impl_template") {
+            let last = mc.args.iter().last().map(|a| tok(a)).unwrap_or_default();
+            if last.trim_start_matches('&') != scope {
+                ctx.violate("C09.params", "template-linked-in-scope", &f.file, model::line_of(syn::spanned::Spanned::span(&mc)), &format!("the template is linked against `{}` instead of the scope map `{}` that holds the actual parameters", last, scope));
+            }
+        }
+    }
+}
+
 pub fn run(m: &Model, ctx: &mut Ctx) {
     ctx.explanation = "C09.sym: each detector/rewriter pair of the linker (contains_components_of_notation / link_components_of_notation, has_choice_selection_type / link_choice_selection_type, \
 contains_constraint_reference / link_constraint_reference, references_class_by_name / resolve_class_reference) must traverse the same container variants of ASN1Type: a container the detector enters but the rewriter does not (or vice versa) leaves a notation unexpanded at that position. \
@@ -295,6 +375,7 @@ Not applicable: the equivalence sugared = expanded itself, independence from the
 
     scope(m, ctx);
     order(m, ctx);
+    params(m, ctx);
     constraint_pairs(m, ctx, "C09.sym");
 
     // ---------------- splice ----------------
